@@ -110,7 +110,9 @@ func (dec *Decoder) decodeListAsInterface(tag byte, p *interface{}) {
 			continue
 		}
 		p := reflect2.PtrOf(result[i])
-		if t.Kind() == reflect.Ptr || t.Kind() == reflect.Map {
+		if t.Kind() == reflect.Ptr || t.Kind() == reflect.Map || reflect2.Type2(t).LikePtr() {
+			// LikePtr: a struct or array whose only field or element is pointer-shaped is
+			// kept in the interface word itself, like a pointer or a map
 			st.UnsafeSetIndex(s, i, (unsafe.Pointer)(&p))
 		} else {
 			st.UnsafeSetIndex(s, i, p)
